@@ -299,3 +299,22 @@ func (v View) Diff(w View) (key, a, b string) {
 	}
 	return "", "", ""
 }
+
+// PrimeShadow fills the shadow model from the backend's own iteration (used
+// when a persistent backend is reopened; C17 is what checks that iteration).
+func (s *ShadowDB) PrimeShadow(buckets []string) {
+	for _, bn := range buckets {
+		b := s.Inner.Bucket([]byte(bn))
+		if b == nil {
+			continue
+		}
+		s.Model.CreateBucket(bn)
+		for k, v := range b.Iter() {
+			s.Model.Put(bn, string(k), string(v))
+		}
+	}
+	s.Model.Flush()
+}
+
+// StoreBuckets are the buckets the chain store uses.
+var StoreBuckets = []string{"Version", "Network", "MainChain", "States", "Blocks", "FileContracts", "SiacoinElements", "SiafundElements", "Tree"}
